@@ -457,7 +457,10 @@ fn run_sync_case(i: u64, rng: &mut Rng, rep: &mut Report, verbose: bool) {
     let entries_only = rng.bool();
     let raw = gen_raw(rng, 1);
     let stop_after: Option<usize> = if rng.chance(1, 4) { Some(rng.usize(raw.len() + 1)) } else { None };
-    let replay = json!({"lane":"sync_streams","case":i});
+    // the server may close the connection as soon as it has sent the final result
+    let server_closes = rng.chance(1, 3);
+    let slow_reader = server_closes && rng.bool();
+    let replay = json!({"lane":"sync_streams","case":i,"server_closes":server_closes});
     let (a, b) = match UnixStream::pair() {
         Ok(p) => p,
         Err(e) => {
@@ -488,6 +491,10 @@ fn run_sync_case(i: u64, rng: &mut Rng, rep: &mut Report, verbose: bool) {
             bytes.extend_from_slice(&ber::encode_min(&resp_node(id, r, cs.as_deref())));
         }
         let _ = s.write_all(&bytes);
+        if server_closes {
+            let _ = s.shutdown(std::net::Shutdown::Both);
+            return;
+        }
         // wait for the client to go away
         loop {
             match s.read(&mut tmp) {
@@ -509,6 +516,10 @@ fn run_sync_case(i: u64, rng: &mut Rng, rep: &mut Report, verbose: bool) {
                 }
             }
             n += 1;
+            if slow_reader && n == 2 {
+                // the reader is slower than the network: by now everything has arrived and the peer is gone
+                std::thread::sleep(std::time::Duration::from_millis(30));
+            }
             match st.next() {
                 Ok(Some(e)) => rets.push(Ret::Item(item_out(&e))),
                 Ok(None) => {
@@ -567,6 +578,9 @@ fn run_sync_case(i: u64, rng: &mut Rng, rep: &mut Report, verbose: bool) {
     if verbose {
         println!("{} raw {} stop {:?}: {} items, result {}", kind_sig, raw.len(), stop_after, rets.len(), trunc(&fin));
     }
+    if server_closes {
+        rep.count("sync_streams_whose_server_closes_after_the_final_result", 1);
+    }
     rep.count(&format!("streams_{}", kind_sig), 1);
     if i < 2 {
         rep.sample(json!({"lane":"sync_streams","case":i,"kind":kind_sig,"raw_items":raw.len(),"stopped_after":stop_after}));
@@ -577,6 +591,71 @@ fn run_sync_case(i: u64, rng: &mut Rng, rep: &mut Report, verbose: bool) {
 pub fn sync_streams(ctx: &Ctx) -> Report {
     let n = ctx.n(3_000, 1_000_000);
     par_cases(ctx, "sync_streams", n, ctx.secs(20, 300), |i, rng, rep| run_sync_case(i, rng, rep, false))
+}
+
+/// A PagedResults search stopped early - on the first or on a later page - is a stream finished
+/// before its end: finish() reports rc 88 (never the result of an earlier page), the state is Closed,
+/// a second finish() reports rc 80.
+pub fn paged_early_finish(ctx: &Ctx) -> Report {
+    use crate::lanes::c13::behaviour_server;
+    use ldap3::adapters::PagedResults;
+    let n = ctx.n(6_000, 2_000_000);
+    par_cases(ctx, "paged_early_finish", n, ctx.secs(15, 300), |i, rng, rep| {
+        let page = 1 + rng.usize(4);
+        let total = page + 1 + rng.usize(8);
+        // stop after j items: anywhere on the first page, at the boundary, or inside the second page
+        let j = rng.usize((2 * page).min(total) + 1);
+        let behind = rng.bool();
+        let rt = runtime(rng.next());
+        let (first, state, second, items) = rt.block_on(async move {
+            let c = connect();
+            let mut ldap = c.ldap;
+            let srv = tokio::spawn(behaviour_server(c.server));
+            let adapters: Vec<Box<dyn Adapter<'static, String, Vec<String>>>> = if behind { vec![Box::new(EntriesOnly::new()), Box::new(PagedResults::new(page as i32))] } else { vec![Box::new(PagedResults::new(page as i32))] };
+            let mut out = (String::new(), String::new(), String::new(), 0usize);
+            if let Ok(mut st) = ldap.streaming_search_with(adapters, &format!("op={},b=ph{}", i, total), Scope::Subtree, "(a=b)", vec!["*".to_string()]).await {
+                let mut k = 0;
+                while k < j {
+                    match world::watchdog(st.next()).await {
+                        Ok(Ok(Some(_))) => k += 1,
+                        _ => break,
+                    }
+                }
+                let r = st.finish().await;
+                out.0 = format!("rc={} text={:?} ctrls={}", r.rc, r.text, r.ctrls.len());
+                out.1 = st_of(st.state()).to_string();
+                let r2 = st.finish().await;
+                out.2 = format!("rc={}", r2.rc);
+                out.3 = k;
+            } else {
+                out.0 = "start failed".into();
+            }
+            drop(ldap);
+            srv.abort();
+            let _ = c.driver.await;
+            out
+        });
+        let replay = json!({"lane":"paged_early_finish","case":i});
+        let on = if j < page { "first-page" } else { "later-page" };
+        if items == j {
+            if !first.starts_with("rc=88 ") {
+                rep.violation(format!("C10:paged-stream:early-finish-not-88:stopped-on-{}", on), format!("{} entries in pages of {}, stopped after {}: finish() -> {}", total, page, j, first), replay.clone());
+            }
+            if state != "Closed" {
+                rep.violation(format!("C10:paged-stream:state-after-finish={}-expected-Closed", state), format!("stopped after {} of {} (page {})", j, total, page), replay.clone());
+            }
+            if second != "rc=80" {
+                rep.violation("C10:paged-stream:second-finish-not-80", format!("{}", second), replay.clone());
+            }
+        } else {
+            rep.violation("C10:paged-stream:item-missing", format!("wanted to read {} items of {} (pages of {}), got {}; finish {}", j, total, page, items, first), replay.clone());
+        }
+        rep.count(&format!("paged_streams_stopped_on_{}", on), 1);
+        if i < 2 {
+            rep.sample(json!({"lane":"paged_early_finish","case":i,"page_size":page,"entries":total,"stopped_after":j,"finish":first}));
+        }
+        rep.case(Some(fnv(format!("{}{}{}{}", page, total, j, behind).as_bytes())));
+    })
 }
 
 /// search(): exactly the entries in order, referral URIs merged into refs, intermediates dropped.
